@@ -17,6 +17,18 @@ BAD_TB = "S42.41.44.54.42"      # "BADTB"
 # ----------------------------------------------------------------------------------------------
 # values <-> tokens
 # ----------------------------------------------------------------------------------------------
+class SlotRecord(object):
+    """a __slots__ object whose slot was never filled: the to-dict conversion fails with AttributeError"""
+    __slots__ = ("value",)
+
+
+class StateRaises(object):
+    """an object whose __getstate__ fails with a RuntimeError"""
+
+    def __getstate__(self):
+        raise RuntimeError("state of this object is not available")
+
+
 class Unser:
     """stands for an object no serializer can turn into data; `make()` builds the real thing"""
 
@@ -35,11 +47,16 @@ class Unser:
             return len
         if self.kind == "event-method":
             return threading.Event().set
+        if self.kind == "slots-unset":
+            return SlotRecord()
+        if self.kind == "getstate-raises":
+            return StateRaises()
         raise ValueError(self.kind)
 
     def clsname(self):
         return {"object": "builtins.object", "lock": "_thread.lock", "builtin": "builtins.builtin_function_or_method",
-                "event-method": "builtins.method"}[self.kind]
+                "event-method": "builtins.method", "slots-unset": "props.c07_rig.SlotRecord",
+                "getstate-raises": "props.c07_rig.StateRaises"}[self.kind]
 
 
 def cps(s):
